@@ -485,3 +485,33 @@ def gen_state(rng: random.Random, ops: list[dict], small_imm=0.5) -> dict:
             vals.append(st[o["bank"]][k] & ((1 << o["w"]) - 1))
     st["vals"] = vals
     return st
+
+
+EDGE32 = [0x80, 0x7F, 0xFF, 0x8000, 0x7FFF, 0xFFFF, 0x80000000, 0x7FFFFFFF, 0xFFFFFFFF, 0x80008000, 0x7FFF8000, 0x80007FFF, 0x00010000, 0xFFFF0000, 0x00800080, 0]
+
+
+def edge_states(rng: random.Random, ops: list[dict]) -> list[dict]:
+    """16 states in which every register / immediate operand takes every type-boundary pattern once
+    (minimum / maximum of the 8, 16 and 32 bit lanes), the other state components random."""
+    out = []
+    for j in range(len(EDGE32)):
+        st = gen_state(rng, ops)
+        for k, o in enumerate(ops):
+            e = EDGE32[(j + 5 * k) % len(EDGE32)]
+            if o["kind"] == "imm":
+                st["imm"][o["letter"]] = sx(32, e) if o["signed"] else e
+                st["vals"][k] = e
+                continue
+            if o["w"] == 64:
+                e = e | (EDGE32[(j + 5 * k + 7) % len(EDGE32)] << 32)
+            e &= (1 << o["w"]) - 1
+            st[o["bank"]][o["key"]] = e
+            if o["kind"] == "expl" and o["bank"] == "old":
+                st["new"][o["key"]] = e
+            st["vals"][k] = e
+        # several tokens may name one handle: keep vals consistent with the banks
+        for k, o in enumerate(ops):
+            if o["kind"] != "imm":
+                st["vals"][k] = st[o["bank"]][o["key"]] & ((1 << o["w"]) - 1)
+        out.append(st)
+    return out
